@@ -354,6 +354,32 @@ def contract_part(ck: Check, cm, polyH, clmo):
             proj = st[:, [IDX[PLANE[sc][0]], IDX[PLANE[sc][1]]]]
             cs.obs(t, "points_are_plane_projection", float(np.max(np.abs(pts - proj))) if pts.shape == proj.shape else 1.0)
             cs.obs(t, "energy_level", max(abs(c09.hcm(cm, polyH, clmo, p) - h0) for p in st))
+    # history on ONE map object: a non-default section, then the configuration is re-assigned, then the same section is asked
+    # for again with options that are not cached yet; then the sections alternate.  Every answer must lie on the section it
+    # was asked for and equal what a fresh map object answers.
+    pm = CenterManifoldMap(cm, h0)
+    hist = []
+    steps = [("compute", "p3", 1), ("reassign-config", None, None), ("compute", "p3", 2), ("compute", "q2", 1), ("compute", "p3", 2), ("compute", "q3", 1)]
+    for op, sc, it in steps:
+        hist.append(op if sc is None else f"{op}({sc},n_iter={it})")
+        if op == "reassign-config":
+            pm.config = pm.config.merge(seed_strategy="axis_aligned")
+            continue
+        opts = make_opts(n_workers=1, n_iter=it, n_seeds=4, dt=1e-2, order=4, max_steps=4000)
+        label = f"history|{' ; '.join(hist)}"
+        ck.count(("map-history", label), True)
+        try:
+            res = pm.compute(section_coord=sc, options=opts)
+            fresh = CenterManifoldMap(cm, h0)
+            fresh.config = fresh.config.merge(seed_strategy="axis_aligned")
+            ref = fresh.compute(section_coord=sc, options=opts)
+        except Exception as ex:
+            ck.violation("cm-map|history-raises", f"{label}: {ex!r}"[:300], {"history": hist})
+            continue
+        st, rs = np.asarray(res.states, dtype=float), np.asarray(ref.states, dtype=float)
+        t = cs.trace(label, {"section_coordinate": -100, "history_matches_fresh": -120}, {"section": sc, "history": list(hist)})
+        cs.obs(t, "section_coordinate", float(np.max(np.abs(st[:, IDX[sc]]))) if st.shape[0] else 1.0)
+        cs.obs(t, "history_matches_fresh", float(np.max(np.abs(st - rs))) if st.shape == rs.shape and st.shape[0] else 1.0)
     cs.decide(key_fn=lambda t, n: (f"map.points|not-plane-projection-of-states:{t['data']['section']}" if n == "points_are_plane_projection"
                                    else f"cm-map|{n}"))
     cs.selftest()
